@@ -43,17 +43,23 @@ func runMass(c MassCase, check string, info *MassInfo) *vstat.Violation {
 	old := make([]timeout.Future, c.Old)
 	oldFired := make([]atomic.Int32, c.Old)
 	far := make([]bool, c.Old)
+	oldT0, oldD := make([]time.Time, c.Old), make([]time.Duration, c.Old)
+	oldStart := make([]atomic.Int64, c.Old)
 	nShort := 0
 	for i := range old {
 		i := i
-		far[i] = c.OldMode == "cancel" || (c.OldMode == "mixed" && i%2 == 0)
+		far[i] = c.OldMode == "cancel" || (c.OldMode == "mixed" && i%2 == 0) || (c.OldMode == "layered" && (int64(i)*7+c.Seed)%3 != 0)
 		d := time.Duration(1+i%4) * time.Millisecond
+		if c.OldMode == "layered" {
+			d = time.Duration(150+(i*13)%250) * time.Millisecond
+			oldT0[i], oldD[i] = time.Now(), d
+		}
 		if far[i] {
 			d = 10*time.Minute + time.Duration(i)*time.Millisecond
 		} else {
 			nShort++
 		}
-		old[i] = timeout.Call(func() { oldFired[i].Add(1) }, d)
+		old[i] = timeout.Call(func() { oldStart[i].CompareAndSwap(0, time.Now().UnixNano()); oldFired[i].Add(1) }, d)
 	}
 	order := make([]int, c.Old)
 	for i := range order {
@@ -68,7 +74,7 @@ func runMass(c MassCase, check string, info *MassInfo) *vstat.Violation {
 		rand.New(rand.NewSource(c.Seed)).Shuffle(len(order), func(i, j int) { order[i], order[j] = order[j], order[i] })
 	}
 	// the short ones fire
-	if nShort > 0 {
+	if nShort > 0 && c.OldMode != "layered" {
 		t := time.Now()
 		for {
 			n := 0
@@ -110,12 +116,43 @@ func runMass(c MassCase, check string, info *MassInfo) *vstat.Violation {
 	between := min(c.Between, c.New)
 	schedule(0, between)
 	for _, i := range order { // first sweep: the pending ones are removed, the fired ones must not care
+		if c.OldMode == "layered" {
+			if !far[i] {
+				continue // these stay pending and must start on time
+			}
+			old[i].Cancel()
+			if !heapSane() {
+				return vstat.V("timers:heap-broken", "%d futures pending (a third due within 400 ms, the rest in 10 min); after cancelling future #%d the pending queue is not a heap any more (a live future may now sit beneath later deadlines)", c.Old, i)
+			}
+			continue
+		}
 		old[i].Cancel()
 	}
 	schedule(between, c.New)
 	for rep := 0; rep < c.Again; rep++ {
 		for _, i := range order {
+			if c.OldMode == "layered" && !far[i] {
+				continue // still pending, and must start
+			}
 			old[i].Cancel()
+		}
+	}
+	if c.OldMode == "layered" {
+		// the near third of generation 1 starts on time
+		for i := range old {
+			if far[i] {
+				continue
+			}
+			due := oldT0[i].Add(oldD[i])
+			for oldFired[i].Load() == 0 && time.Since(due) < latenessBound {
+				time.Sleep(2 * time.Millisecond)
+			}
+			if oldFired[i].Load() == 0 {
+				return vstat.V("timers:lost-after-foreign-cancel", "%d futures pending (a third due within 400 ms, the rest in 10 min and cancelled one by one in %s order): future #%d (delay %v), never cancelled, was not started within %v of its deadline (pending=%d workers=%d)", c.Old, c.Order, i, oldD[i], latenessBound, pending(), poolWorkers())
+			}
+			if st := time.Unix(0, oldStart[i].Load()); st.Before(due) {
+				return vstat.V("timers:started-early", "future #%d of generation 1 (delay %v) was started %v after its Call", i, oldD[i], st.Sub(oldT0[i]))
+			}
 		}
 	}
 	deadline := time.Now().Add(150*time.Millisecond + latenessBound)
